@@ -157,6 +157,17 @@ def q(s, safe=''):
 def gen_scope(rng, consts, target, hist):
     """A scope string another device might publish, rendered from structured components."""
     elements, scheme, default_root = consts['elements'], consts['scheme'], consts['default_root']
+    if rng.random() < 0.25:
+        # exactly what a conforming device publishes for the target location (both renderings of the library)
+        present = [(e, v) for e, v in zip(elements, target['vals']) if v]
+        if rng.random() < 0.5:
+            seg = '%2F'.join(q(v or '') for v in target['vals'])
+            qs = urllib.parse.urlencode(dict(present))
+        else:
+            seg = q('/'.join(q(v or '') for v in target['vals']))
+            qs = urllib.parse.urlencode(dict(present), quote_via=urllib.parse.quote, safe='')
+        hist['conforming'] += 1
+        return f'{scheme}:/{default_root}/{seg}' + ('?' + qs if qs else '')
     r = rng.random()
     # --- scheme
     if r < 0.72:
@@ -372,12 +383,12 @@ def run(ctx):
                    '; '.join('[' + '; '.join('None' if isinstance(g, str) else f'(Some {coqlit(g)})' for g in row) + ']'
                              for row in r['inside']) + ']))')
         else:
-            exp = 'None'
+            exp = '(None : option (list bytes * list (list (option bool))))'
 
         def ovr(x):
-            return 'None' if x == 'keep' else f'(Some {oblit(x)})'
+            return '(@None (option bytes))' if x == 'keep' else f'(Some {oblit(x)})'
         inp = (f'({loclit(target, default_root)}, {ovr(c["ident_root"])}, {ovr(c["ident_ext"])}, '
-               f'[{"; ".join(loclit(p, default_root) for p in c["probes"])}], [{"; ".join(bl(s) for s in badl)}])')
+               f'[{"; ".join(loclit(p, default_root) for p in c["probes"])}], ([{"; ".join(bl(s) for s in badl)}] : list bytes))')
         lits.append((inp, exp, c, r))
         keys.append(json.dumps(c, sort_keys=True))
     eqb = ('option_eqb (prod_eqb (list_eqb bytes_eqb) (list_eqb (list_eqb (option_eqb Bool.eqb))))')
@@ -419,20 +430,20 @@ def run(ctx):
                 p = r['parse'][t]
                 pkinds[p.get('err', 'ok') + ('' if r['split'][t] == 'ok' else '/' + r['split'][t])] += 1
                 if r['clean'][t]:
-                    plits.append((f'([{blit(t) if r["split"][t] == "bad" else ""}], {blit(t)})', parse_lit(p), t, p))
+                    plits.append((f'(([{blit(t) if r["split"][t] == "bad" else ""}] : list bytes), {blit(t)})', parse_lit(p), t, p))
         if not clean:
             n_oom += 1
             continue
         badl = [t for t in flat if r['split'][t] == 'bad']
         svl = '[' + '; '.join('None' if sc is None else '(Some [' + '; '.join(blit(t) for t in sc) + '])'
                               for sc in c['services']) + ']'
-        inp = f'({loclit(c["self"], default_root)}, {svl}, [{"; ".join(blit(t) for t in badl)}])'
+        inp = f'({loclit(c["self"], default_root)}, ({svl} : list service), ([{"; ".join(blit(t) for t in badl)}] : list bytes))'
         if isinstance(r['kept'], str):
-            exp = 'None'
+            exp = '(None : option (list service))'
         else:
-            exp = '(Some [' + '; '.join('None' if c['services'][i] is None else
+            exp = '(Some [' + '; '.join('(None : service)' if c['services'][i] is None else
                                          '(Some [' + '; '.join(blit(t) for t in c['services'][i]) + '])'
-                                         for i in r['kept']) + '])'
+                                         for i in r['kept']) + '] : option (list service))'
         lits.append((inp, exp, c, r))
         keys.append(json.dumps(c, sort_keys=True))
     runf = f"fun c => let '(me, svs, badl) := c in run_foreign {K} true badl me svs"
